@@ -57,6 +57,9 @@ pub assume_specification[ Duration::from_secs ](s: u64) -> (r: Duration)
 pub assume_specification[ Duration::from_millis ](ms: u64) -> (r: Duration)
     ensures dur_nanos(r) == ms as int * 1_000_000;
 /// Duration accessors (std: whole seconds, and the sub-second part in ns / ms)
+/// whole milliseconds (std: truncating division of the nanosecond count)
+pub assume_specification[ Duration::as_millis ](d: &Duration) -> (r: u128)
+    ensures r == dur_nanos(*d) / 1_000_000;
 pub assume_specification[ Duration::as_secs ](d: &Duration) -> (r: u64)
     ensures r as int == dur_nanos(*d) / 1_000_000_000;
 pub assume_specification[ Duration::subsec_nanos ](d: &Duration) -> (r: u32)
